@@ -202,7 +202,11 @@ func isoShapes(scratch string, rng *rand.Rand, n int) []*isoShape {
 	// packaging is rejected - the others, before or after, are not touched by it)
 	mk("repeated-relations", func(c *Cfg, n *[]Node) {
 		c.Depends = []string{"a", "b >= 1", "a", "c", "b >= 1"}
-		c.Provides, c.Replaces, c.Conflicts = []string{"p", "p", "q"}, []string{"r2", "r1", "r2"}, []string{"x", "y", "x"}
+		// (the package's own name among what it replaces / conflicts with; a trigger name under a directive and its noawait
+		// twin; two alternatives for one link)
+		c.Provides, c.Replaces, c.Conflicts = []string{"p", "p", "q"}, []string{"isopkg", "r2", "r1", "r2"}, []string{"isopkg", "x", "y", "x"}
+		c.DebTriggers = []KV2{{"interest", "/usr/share/mime"}, {"interest", "/usr/share/icons"}, {"interest_noawait", "/usr/share/mime"}, {"activate", "ldconfig"}, {"activate_noawait", "ldconfig"}, {"activate", "other"}}
+		c.IpkAlts = []Alt{{100, "/usr/bin/tool", "/usr/bin/editor"}, {50, "/usr/bin/tool", "/usr/bin/view"}, {10, "/usr/bin/tool-old", "/usr/bin/editor"}}
 		c.Recommends, c.Suggests = []string{"m", "m"}, []string{"s", "t", "s"}
 	}, "")
 	mk("addressed-to-nobody", func(c *Cfg, n *[]Node) {
